@@ -6,7 +6,8 @@
    the part of the reactor state a snapshot must preserve.  One action per public mutator / linearization point:
 
      Assign(o,p,v)   obj.p[name] = value                       (v = 0: back to "unset", which reads as the default)
-     Move(o,l)       Assembly.moveTo to a free position, or the swap of two assemblies (fuelHandlers.swapAssemblies)
+     Move(o,l)       to a free position (Core.removeAssembly + Core.add), or the swap of two assemblies by Assembly.moveTo
+                     as fuelHandlers.swapAssemblies does it
      Birth(o,l)      Core.add of an object that was not in the reactor before (it is absent from earlier snapshots)
      Advance(c,n)    r.p.cycle, r.p.timeNode = c, n              (any order: "for any interleaving")
      Write(l)        Database.writeToDB(r, statePointName=l)     -> new group cXXnYY<l> holding the state as of now
@@ -19,8 +20,10 @@
      Split(K)        A.splitDatabase(K, label)                   (B becomes the backup holding everything)
      Close(ok, via)  Database.close(ok), or Database.__exit__ at the end of a `with` block (ok = no exception passing)
 
-   Queries are state functions (Obs): Steps = list(genTimeSteps()), Names = keys(), HasStep = hasTimeStep,
+   Queries are state functions (Obs): Steps = list(genTimeSteps()), Names = keys(), has = hasTimeStep,
    Hist = getHistories (by serial number), HistLoc = getHistoriesByLocation, HistSel = getHistories(timeSteps=...),
+   TrackView / TimeSteps = HistoryTrackerInterface.getBlockHistoryVal / getTimeSteps (armi/bookkeeping/historyTracker.py,
+   through DatabaseInterface.getHistory),
    Dump = what Database(file, "r") shows of a closed file (attrs["successfulCompletion"], every group loaded).
 
    Abstract state
